@@ -11,6 +11,7 @@ RULE = ('lap scripts over multisets of NON-EMPTY intervals (duplicates, nested, 
         'pair or an interval containing another; distinct by case text')
 UNIQUE_NOTE = 'merge_canon + canon_unique: the merged (start,stop) list is unique; find/count/seek/cov are functions of the stored set'
 EXHAUSTIVE = {}
+CROSSCHECK = True      # thorough tier: a sample is re-evaluated inside Coq against the extracted runner
 
 
 def nontrivial(ivs):
@@ -69,13 +70,17 @@ def gen(rng, tier):
         for _ in range(rng.choice([0, 0, 1, 3])):
             s, e = G.rand_ivs(rng, mode, 1, 'ne')[0]
             ops.append(['ins', s, e, nid]); nid += 1; cur.append((s, e))
+        if rng.random() < 0.3:
+            ops.append(['setcov'])                 # a cached coverage must stay right through merges and later inserts
         ops += [['merge'], ['ivs'], ['len'], ['merge'], ['ivs']]
         # merge ; insert something that only touches a merged block ; merge again (the re-merge must fuse them)
         for _t in range(rng.choice([0, 1, 1, 2])):
             t = touching_insert(rng, cur, mode)
             if t and t[0] < t[1]:
                 ops.append(['ins', t[0], t[1], nid]); nid += 1; cur.append(t)
-                ops += [['merge'], ['ivs'], ['count', t[0], t[1]], ['cov']]
+                if rng.random() < 0.3:
+                    ops.insert(len(ops) - 1, ['setcov'])
+                ops += [['cov'], ['merge'], ['ivs'], ['count', t[0], t[1]], ['cov']]
         for _ in range(rng.randint(2, 10)):
             r = rng.random()
             pts = G.points(cur, mode)
@@ -88,11 +93,19 @@ def gen(rng, tier):
                 ops.append(['cov'])
             elif r < 0.4:
                 ops.append(['cur0'])
-                for a, b in sorted(G.rand_query(rng, pts, mode) for _k in range(3)):
-                    ops.append(['seek', a, b])
+                for a, b in sorted(G.rand_query(rng, pts, mode) for _k in range(3 if mode != 'dense' else 8)):
+                    ops.append(['seek', a, b]); ops.append(['find', a, b])
             else:
                 a, b = G.rand_query(rng, pts, mode)
                 ops.append(['find', a, b]); ops.append(['count', a, b])
+        if mode == 'dense':
+            cov = merged_cover(cur)
+            inside = [(a, b) for (a, b) in cov if b - a >= 3]
+            if len(inside) > 80:
+                ops.append(['cur0'])
+                i = rng.randrange(0, 8); j = rng.randrange(i + 66, len(inside))
+                for (a, b) in (inside[i], inside[j]):
+                    ops.append(['seek', a + 1, a + 2]); ops.append(['find', a + 1, a + 2])
         yield Case(G.case(mode, ivs, ops), nontrivial(cur), mode)
     if tier == 'thorough':
         for ivs in G.small_multisets(3, 5, 'ne'):
